@@ -152,3 +152,35 @@ func ZZH_C11_Calls() {
 	}
 	zzvReach("done")
 }
+
+// Longer histories of the plain entry points (solver-chosen header/footer and kind per call):
+// after every call the references are one per kind and each resolves to exactly one
+// relationship of the right type whose part exists - in particular after a kind was redefined
+// and another relationship was created afterwards.
+func ZZH_C11_RefsAfterRedefinition() {
+	d := New()
+	k := zzvBound("hf_plain_calls", 3, 4)
+	for i := 0; i < k; i++ {
+		kind := zzhKinds[zzvChoice(3)]
+		var err error
+		if zzvBool() {
+			err = d.AddHeader(kind, "t")
+		} else {
+			err = d.AddFooter(kind, "t")
+		}
+		zzvAssert(err == nil, "header/footer call succeeds")
+		if i == 1 && zzvBool() {
+			_, e := d.AddImageFromData(zzhPNG, "p.png", ImageFormatPNG, 10, 10, nil)
+			zzvAssume(e == nil)
+		}
+		zzhCheckRefs(d)
+	}
+	// relationship ids stay unique in the document relationship list
+	rels := d.documentRelationships.Relationships
+	for i := range rels {
+		for j := i + 1; j < len(rels); j++ {
+			zzvAssert(rels[i].ID != rels[j].ID, "document relationship ids stay pairwise distinct")
+		}
+	}
+	zzvReach("done")
+}
